@@ -558,6 +558,9 @@ def gen_layout(rng):
         'tags_blank': rng.random() < 0.7,
         'after_star': rng.choice([' ', ' ', ' ', '\t']),
         'trailing_ws': rng.random() < 0.2,
+        # indentation in front of the asterisk, line by line: None = the same on every line, else a ragged layout
+        'ragged': rng.choice([None, None, None, 'random', 'random', 'stair-up', 'stair-down', 'tags-deeper',
+                              'tabs-and-spaces']),
         'seed': rng.getrandbits(32),
     }
 
@@ -625,13 +628,43 @@ def render_block(m, lay):
                 body.append(extra)
     ind = lay['indent']
     out = [(ind[:-1] if ind and not ind.endswith('\t') else ind) + '/**']
-    for l in body:
+    indents = line_indents(lay, body, r)
+    for l, li in zip(body, indents):
         if l:
-            out.append(ind + '*' + lay['after_star'] + l + ('  ' if lay['trailing_ws'] else ''))
+            out.append(li + '*' + lay['after_star'] + l + ('  ' if lay['trailing_ws'] else ''))
         else:
-            out.append(ind + '*' + (' ' if lay['trailing_ws'] else ''))
-    out.append(ind + '*/')
+            out.append(li + '*' + (' ' if lay['trailing_ws'] else ''))
+    out.append(indents[-1] + '*/' if lay.get('ragged') else ind + '*/')
     return lay['eol'].join(out)
+
+
+RAGGED_POOL = ['', ' ', '  ', '   ', '\t', ' \t', '\t ', '\t\t', '      ', '\x0c ', ' \xa0']
+
+
+def line_indents(lay, body, r):
+    """the white space in front of the asterisk of every body line.  The property says the parse is the same
+    "regardless of ... any indentation in front of the asterisks": ragged layouts give every line its own."""
+    mode = lay.get('ragged')
+    n = len(body)
+    ind = lay['indent']
+    if not mode:
+        return [ind] * n
+    if mode == 'random':
+        return [r.choice(RAGGED_POOL) for _ in range(n)]
+    if mode == 'tabs-and-spaces':
+        return [r.choice([' ', '\t', '  ', ' \t', '\t ']) for _ in range(n)]
+    if mode == 'stair-up':
+        unit = r.choice([' ', '\t', '  '])
+        return [ind + unit * i for i in range(n)]
+    if mode == 'stair-down':
+        unit = r.choice([' ', '\t', '  '])
+        return [ind + unit * (n - 1 - i) for i in range(n)]
+    # tags-deeper: tag lines (and continuation lines) sit deeper than the line that opened the part before them
+    out = []
+    for l in body:
+        tagish = bool(re.match(r'\s*(returns|since|deprecated|stability)\s*:', l, re.I)) or l.lstrip().startswith('(')
+        out.append(ind + r.choice([' ', '  ', '\t', '   ']) if tagish else ind)
+    return out
 
 
 def parse_real(impl, text, filename='f.c', lineno=1):
